@@ -26,6 +26,53 @@ CHECKS = {
             "offline (no reference) for symmetry, complementarity, union "
             "laws, trichotomy, transitivity/cycles and hash agreement.",
             "6 C02"),
+    "C03": ("reference-model postconditions on the six conversion functions, "
+            "length queries, week-start helpers, iter_months_days and "
+            "TimePoint.to_*_date; exhaustive day sweep",
+            "Every call of a conversion/length helper (direct or internal) is "
+            "compared with the closed-form reference for the active mode; "
+            "thorough tier enumerates every day of a full 400-year Gregorian "
+            "cycle and a full weekday cycle of each fixed calendar spelling.",
+            "6 C03"),
+    "C04": ("postcondition monitor on TimePoint - TimePoint vs reference "
+            "instants; identities evaluated on the real operators under the "
+            "monitors",
+            "Every point difference is checked for exact length, component "
+            "shape and sign against reference instants; (a-b)==-(b-a), "
+            "b+(a-b)==a, (p+d)-p==d are driven over near and far pairs.",
+            "6 C04"),
+    "C05": ("postcondition monitors on add_months and nominal __add__ vs a "
+            "reference stepper with clamping",
+            "Every month/year addition is compared with single clamped month "
+            "steps, per-representation year clamps and exact->months->years "
+            "ordering from the reference; sweep over all month ends, leap "
+            "days, day 366, W53.", "6 C05"),
+    "C06": ("postcondition monitors on to_time_zone/to_utc/"
+            "to_local_time_zone and on zone-literal dumps (reference "
+            "decoder); ==/hash/zero-difference asked of the real operators",
+            "Every re-zoning observed keeps the reference instant, carries "
+            "the requested offset, representation and legal fields; thorough "
+            "tier enumerates all 11999 offsets over boundary points.",
+            "6 C06"),
+    "C07": ("monitor on TimePointParser.parse comparing the result with the "
+            "fields a reference ISO 8601 encoder spelled",
+            "The full cross product of documented forms (and truncated "
+            "forms, basic-only parsers, basic/extended mixtures) is spelled "
+            "from chosen field values by an encoder written from the "
+            "standard; the parser must return exactly those fields and "
+            "re-dump the input.", "6 C07"),
+    "C08": ("trace checker over recorded dump->parse chains with an "
+            "independent reference decoder of the dumped text",
+            "Random valid points are written with str() and qualifying "
+            "custom formats and read back; fields, representation, offset, "
+            "== and str-fixpoint are decided per chain.", "6 C08"),
+    "C09": ("exception-observing monitors on constructors and the three "
+            "parsers; logical step budget via sys.monitoring LINE events",
+            "Acceptance decisions on exhaustive small grids around every "
+            "legal range (per year type and mode, constructor and text) are "
+            "compared with the reference's legality; fuzzed text must yield "
+            "a valid object or a ValueError subclass within a step budget.",
+            "6 C09"),
 }
 
 LEVEL_NOTE = ("Trusted: CPython 3.12 int/Fraction arithmetic, rtv/refmodel.py "
